@@ -21,7 +21,8 @@ META = {
              ' Also: almost axis-aligned rotations, a second --generate-in'
              'fo run into the same destination, the compact URL form compu'
              'ted from Python floats and NumPy scalars.'
-             " Round 12: NIfTI headers with qform and sform both set (equal / different) or the qform alone."),
+             " Round 12: NIfTI headers with qform and sform both set (equal / different) or the qform alone."
+             " Round 17: pixdim / qform voxel sizes that differ from the sform's column norms."),
     "trusted_base": ["nibabel (writes the file, reports the affine the tool "
                      "sees)", "float64 arithmetic with relative tolerance "
                      "1e-9"],
